@@ -151,6 +151,10 @@ func registerHook(in *Interp) {
 		th.yield(th.str(a[0], "site"))
 		return nil
 	})
+	in.reg(h+"YieldVal", func(th *Thread, fn *ssa.Function, a []Value) Value {
+		th.yield(th.str(a[0], "site"))
+		return a[1]
+	})
 	in.reg(h+"Go", func(th *Thread, fn *ssa.Function, a []Value) Value {
 		th.ex.spawn(a[1], nil, th.str(a[0], "name"))
 		return nil
